@@ -29,6 +29,7 @@ FRAMES = {
     'same_except_qc': ['quality_cache'],
     'same_except_timeout': ['conn_timeout_ms'],
     'same_except_gated': ['stall_gated'],
+    'same_except_stall_flags': ['stall_gated', 'silence_pulled', 'stall_latched_since_ms', 'stall_recovery_since_ms'],
     'same_except_stall_clear': ['conn_timeout_ms', 'stall_gated', 'silence_pulled', 'stall_latched_since_ms', 'stall_recovery_since_ms'],
     'same_except_take_batch': ['packet_log', 'in_flight_packets', 'highest_acked_seq', 'batch_sender', 'last_sent'],
     'same_except_log_hw': ['packet_log', 'in_flight_packets', 'highest_acked_seq'],
@@ -452,6 +453,9 @@ def add_connection(u):
            ]))
     F(u.fn(CONN, 'reset_core_state', impl='SrtlaConnection', sub='acct', ensures=S.RESET_CORE_ENSURES))
     F(u.fn(CONN, 'mark_for_recovery', impl='SrtlaConnection', sub='acct', ensures=S.RESET_CORE_ENSURES_PUBLIC('mark_for_recovery') + [
+        # a reset link has no keepalive outstanding: an echo of a keepalive sent BEFORE the reset must not yield an RTT sample / delivery proof
+        C('C08+C14.acct.mark_for_recovery.cancels_the_outstanding_rtt_probe_and_keepalive_stamps',
+          '!final(self).rtt.waiting_for_keepalive_response && final(self).rtt.last_keepalive_sent_ms == 0 && final(self).last_keepalive_sent is None'),
         'final(self).last_received is None', 'final(self).reconnection.startup_grace_deadline_ms == 0',
         'final(self).reconnection.last_reconnect_attempt_ms == old(self).reconnection.last_reconnect_attempt_ms',
         'final(self).reconnection.reconnect_failure_count == old(self).reconnection.reconnect_failure_count',
@@ -557,6 +561,10 @@ def add_selection(u):
     u.add(u.fn(K + 'selection/mod.rs', 'apply_stall_gate', sub='select',
                pre_rewrite=[(re.compile(r'let any_healthy = conns\.iter\(\)\.any\(\|c\| \{.*?\}\);', re.S),
                              'let any_healthy = any_healthy_helper(conns, current_time_ms);', 1)],
+               # loop_isolation(false): what is known before a loop about values the loop does not change (old(conns), the entry
+               # snapshots) stays known inside and after it, so loop clauses only describe what THAT loop does, relative to its
+               # own entry snapshot `c_entry`; whether the passes add up to the contract is decided at the exits
+               attrs='#[verifier::loop_isolation(false)]\n',
                requires=S.GATE_REQUIRES, ensures=S.GATE_ENSURES,
                loops={k: dict(inv=inv, dec='conns.len() - c_nx') for k, inv in S.GATE_LOOPS.items()},
                splices=S.GATE_SPLICES))
